@@ -653,6 +653,9 @@ func runC10(c *Ctx) {
 			if k.Text != "" {
 				continue
 			}
+			if r.Chance(1, 4) { // a booking written several times in the transaction (also the other way round)
+				k.Bookings = c10Repeat(r, k.Bookings)
+			}
 			c.c10PrintCase(i, k)
 		}
 	}
@@ -701,6 +704,7 @@ type c10LCase struct {
 	Files []c10LFile // Files[0] is the root
 	Txs   []c10LTx
 	Opens []string
+	Rep   int // transactions with a repeated booking
 }
 
 func (k *c10LCase) fileText(f int, single bool) string {
@@ -759,13 +763,21 @@ func c10LoaderGen(r *RNG, thorough bool) *c10LCase {
 		return fmt.Sprintf("%d.%02d", r.Range(0, 5000), r.Intn(100))
 	}
 	bookings := func(n int) string {
-		var b strings.Builder
+		var bks []c10Booking
 		for ; n > 0; n-- {
 			cr, db := use(Pick(r, assets)), use(Pick(r, exps))
 			if r.Chance(1, 8) {
 				cr, db = db, cr
 			}
-			fmt.Fprintf(&b, "%s %s %s %s\n", cr, db, qty(), Pick(r, []string{"CHF", "CHF", "USD"}))
+			bks = append(bks, c10Booking{cr, db, qty(), Pick(r, []string{"CHF", "CHF", "USD"})})
+		}
+		if r.Chance(1, 3) {
+			bks = c10Repeat(r, bks)
+			k.Rep++
+		}
+		var b strings.Builder
+		for _, bk := range bks {
+			fmt.Fprintf(&b, "%s %s %s %s\n", bk.Credit, bk.Debit, bk.Qty, bk.Com)
 		}
 		return b.String()
 	}
@@ -863,7 +875,117 @@ func c10LoaderGen(r *RNG, thorough bool) *c10LCase {
 		k.Files = append(k.Files, f)
 		k.Files[parent].Incl = append(k.Files[parent].Incl, m)
 	}
+	// the same transaction text a second time: in the same file (adjacent or at the end) or in another file
+	if r.Chance(1, 2) {
+		for n := r.Range(1, 3); n > 0; n-- {
+			src := r.Range(1, nf)
+			if k.Files[src].Kind == "bulk" && r.Chance(2, 3) {
+				src = r.Range(1, nf)
+			}
+			if len(k.Files[src].Txs) == 0 {
+				continue
+			}
+			p := r.Intn(len(k.Files[src].Txs))
+			t := k.Files[src].Txs[p]
+			dst := src
+			if r.Bool() {
+				dst = r.Range(0, nf)
+			}
+			fl := &k.Files[dst]
+			switch {
+			case dst == src && r.Bool(): // directly after the first copy
+				fl.Txs = append(fl.Txs[:p+1], append([]int{t}, fl.Txs[p+1:]...)...)
+			default:
+				fl.Txs = append(fl.Txs, t)
+			}
+		}
+	}
+	// diamond includes: a file reachable through two include directives (of two files, or twice from the same file) is
+	// read once per include; parents have smaller numbers, so there is no cycle
+	if nf >= 2 && r.Chance(1, 3) {
+		for n := r.Range(1, 2); n > 0; n-- {
+			m := r.Range(2, nf)
+			if k.Files[m].Kind == "bulk" && !thorough {
+				continue
+			}
+			parent := r.Range(0, m-1)
+			k.Files[parent].Incl = append(k.Files[parent].Incl, m)
+		}
+	}
 	return k
+}
+
+// mult: how many times the loader reads each transaction of the case (occurrences in a file x include paths to the file).
+func (k *c10LCase) mult() []int {
+	out := make([]int, len(k.Txs))
+	var walk func(f int)
+	walk = func(f int) {
+		for _, t := range k.Files[f].Txs {
+			out[t]++
+		}
+		for _, m := range k.Files[f].Incl {
+			walk(m)
+		}
+	}
+	walk(0)
+	return out
+}
+
+// c10Repeat: bookings repeated inside one transaction: 1-3 more copies of one booking, identical or written the other way
+// round (A B 10 as B A -10), next to the first copy, at the end or in front.
+func c10Repeat(r *RNG, bks []c10Booking) []c10Booking {
+	if len(bks) == 0 {
+		return bks
+	}
+	out := append([]c10Booking(nil), bks...)
+	p := r.Intn(len(out))
+	for n := r.Range(1, 3); n > 0; n-- {
+		b := out[p]
+		if r.Chance(1, 3) {
+			b.Credit, b.Debit = b.Debit, b.Credit
+			if strings.HasPrefix(b.Qty, "-") {
+				b.Qty = b.Qty[1:]
+			} else {
+				b.Qty = "-" + b.Qty
+			}
+		}
+		switch r.Intn(3) {
+		case 0:
+			out = append(out[:p+1], append([]c10Booking{b}, out[p+1:]...)...)
+		case 1:
+			out = append(out, b)
+		default:
+			out = append([]c10Booking{b}, out...)
+			p++
+		}
+	}
+	return out
+}
+
+// c10TextSum: what the bookings written in the text of a transaction book per "account commodity", times m: every line
+// `credit debit quantity commodity` takes the quantity from the credit account and adds it to the debit account.
+func c10TextSum(text string, m int) (map[string]string, bool) {
+	sums := map[string]decimal.Decimal{}
+	for _, ln := range strings.Split(text, "\n") {
+		f := strings.Fields(ln)
+		if len(f) != 4 || strings.HasPrefix(ln, "@") || strings.Contains(ln, "\"") {
+			continue
+		}
+		q, err := decimal.NewFromString(f[2])
+		if err != nil {
+			return nil, false
+		}
+		q = q.Mul(decimal.NewFromInt(int64(m)))
+		sums[f[0]+" "+f[3]] = sums[f[0]+" "+f[3]].Sub(q)
+		sums[f[1]+" "+f[3]] = sums[f[1]+" "+f[3]].Add(q)
+	}
+	out := map[string]string{}
+	for key, v := range sums {
+		if !v.IsZero() {
+			out[key] = v.String()
+		}
+	}
+	return out, true
 }
 
 // c10LRun: one way of loading the tree.
@@ -986,7 +1108,7 @@ func c10MapStr(m map[string]string) string {
 // c10LExpect: per transaction of the case, what the original books (real Create without the annotation) and the dates of
 // its expansion (real Create with it; that list itself is checked against the model by the stream `accrual`).
 type c10LExp struct {
-	Orig  map[string]string
+	Orig  []*transaction.Transaction
 	Dates []int
 	OK    bool
 }
@@ -1009,7 +1131,7 @@ func c10LExpect(t c10LTx) (e c10LExp) {
 			if o != "ok" || o2 != "ok" {
 				return
 			}
-			e.Orig = c10Sum(orig)
+			e.Orig = orig
 			for _, g := range gen {
 				e.Dates = append(e.Dates, dayNum(g.Date))
 			}
@@ -1045,6 +1167,7 @@ func c10ShowSorted(txs []*transaction.Transaction) []string {
 
 // c10LJudge evaluates the property's statements on a loaded journal; "" = all hold.
 func c10LJudge(k *c10LCase, exp []c10LExp, txs []*transaction.Transaction, single []string) string {
+	mult := k.mult()
 	fam := map[string][]*transaction.Transaction{}
 	for _, t := range txs {
 		if !c10Balanced(t) {
@@ -1071,6 +1194,19 @@ func c10LJudge(k *c10LCase, exp []c10LExp, txs []*transaction.Transaction, singl
 		}
 		got := fam[t.Desc]
 		sum := c10Sum(got)
+		var origs []*transaction.Transaction
+		var wantDates []int
+		for m := mult[n]; m > 0; m-- {
+			origs = append(origs, exp[n].Orig...)
+			wantDates = append(wantDates, exp[n].Dates...)
+		}
+		sort.Ints(wantDates)
+		wantSum := c10Sum(origs)
+		if ts, ok := c10TextSum(t.Text, mult[n]); ok {
+			if a, b := c10MapStr(wantSum), c10MapStr(ts); a != b {
+				return fmt.Sprintf("original: Create without the annotation books %s, the bookings written in the text make %s (read %d times)\n%s", a, b, mult[n], t.Text)
+			}
+		}
 		if t.Accrue != "" {
 			for key, v := range sum {
 				if strings.HasPrefix(key, t.Accrue+" ") {
@@ -1078,16 +1214,16 @@ func c10LJudge(k *c10LCase, exp []c10LExp, txs []*transaction.Transaction, singl
 				}
 			}
 		}
-		if a, b := c10MapStr(sum), c10MapStr(exp[n].Orig); a != b {
-			return fmt.Sprintf("conserves: the transactions loaded for %q book %s, the original books %s (%d transactions loaded, expansion has %d)\n%s", t.Desc, a, b, len(got), len(exp[n].Dates), t.Text)
+		if a, b := c10MapStr(sum), c10MapStr(wantSum); a != b {
+			return fmt.Sprintf("conserves: the transactions loaded for %q book %s, the original (written %d times in the files read) books %s (%d transactions loaded, expansion has %d)\n%s", t.Desc, a, mult[n], b, len(got), len(wantDates), t.Text)
 		}
 		var dates []int
 		for _, g := range got {
 			dates = append(dates, dayNum(g.Date))
 		}
 		sort.Ints(dates)
-		if fmt.Sprint(dates) != fmt.Sprint(exp[n].Dates) {
-			return fmt.Sprintf("dates: %q is loaded as %d transactions, one per period end (and per other leg) makes %d; dates differ\n%s", t.Desc, len(dates), len(exp[n].Dates), t.Text)
+		if fmt.Sprint(dates) != fmt.Sprint(wantDates) {
+			return fmt.Sprintf("dates: %q (written %d times in the files read) is loaded as %d transactions, one per period end (and per other leg) makes %d; dates differ\n%s", t.Desc, mult[n], len(dates), len(wantDates), t.Text)
 		}
 	}
 	got := c10ShowSorted(txs)
@@ -1184,7 +1320,13 @@ func (c *Ctx) c10LoaderStream() {
 				nl++
 			}
 		}
-		c.Class(fmt.Sprintf("c10/loader/files%s/big%d/gen%s", bucket(len(k.Files)), minInt(nl, 6), bucket(gen)))
+		mx := 0
+		for _, m := range k.mult() {
+			if m > mx {
+				mx = m
+			}
+		}
+		c.Class(fmt.Sprintf("c10/loader/files%s/big%d/gen%s/rep%s/mult%d", bucket(len(k.Files)), minInt(nl, 6), bucket(gen), bucket(k.Rep), minInt(mx, 4)))
 		if i < 1 {
 			c.Sample(map[string]any{"stream": "loader", "files": len(k.Files), "transactions": len(k.Txs), "generated": gen})
 		}
